@@ -629,6 +629,23 @@ pub fn fastpath_reachable_in(s: &Schema, sh: &Shape, x: &TVal, filled: bool) -> 
             _ => false,
         })
     }
+    fn ty_reaches(s: &Schema, ty: &Ty, seen: &mut Vec<usize>, args: &[usize]) -> bool {
+        match s.resolve(ty) {
+            Ty::List(t) | Ty::Set(t) => ty_reaches(s, t, seen, args),
+            Ty::Map(k, v) => ty_reaches(s, k, seen, args) || ty_reaches(s, v, seen, args),
+            Ty::Ref(d) => {
+                if args.contains(d) {
+                    return true;
+                }
+                if seen.contains(d) {
+                    return false;
+                }
+                seen.push(*d);
+                s.defs[*d].fields.iter().any(|f| ty_reaches(s, &f.ty, seen, args))
+            }
+            _ => false,
+        }
+    }
     fn go(s: &Schema, ty: &Ty, v: &TVal, args: &[usize], filled: bool) -> bool {
         match (s.resolve(ty), v) {
             (Ty::List(t), TVal::List(_, xs)) | (Ty::Set(t), TVal::Set(_, xs)) => xs.iter().any(|x| go(s, t, x, args, filled)),
@@ -640,7 +657,15 @@ pub fn fastpath_reachable_in(s: &Schema, sh: &Shape, x: &TVal, filled: bool) -> 
                 }
                 let mut matching = fs.iter().filter(|(id, v)| def.fields.iter().any(|f| f.id == *id && s.tt(&f.ty) == v.tt())).count();
                 if filled {
-                    matching += def.fields.iter().filter(|f| f.req != Req::Optional && !fs.iter().any(|(id, _)| *id == f.id)).count();
+                    // pilota's encoder writes every field that is not optional, and an optional one
+                    // that has a default (its Default is Some(default)); what such an absent field
+                    // holds on the wire is the default VALUE: when its type can reach an argument
+                    // struct at all, that instance is taken to be complete
+                    let written_anyway = |f: &&Field| (f.req != Req::Optional || f.default.is_some()) && !fs.iter().any(|(id, _)| *id == f.id);
+                    matching += def.fields.iter().filter(written_anyway).count();
+                    if def.fields.iter().filter(written_anyway).any(|f| ty_reaches(s, &f.ty, &mut vec![], args)) {
+                        return true;
+                    }
                 }
                 if args.contains(d) && matching >= def.fields.len() {
                     return true;
@@ -653,9 +678,16 @@ pub fn fastpath_reachable_in(s: &Schema, sh: &Shape, x: &TVal, filled: bool) -> 
     match sh {
         Shape::Def(i) => go(s, &Ty::Ref(*i), x, &args, filled),
         _ => {
-            let (fields, _, _) = s.target_fields(sh);
+            let (fields, is_union, _) = s.target_fields(sh);
             match x {
-                TVal::Struct(fs) => in_fields(s, &fields, fs, &args, filled),
+                TVal::Struct(fs) => {
+                    // (*Args* structs: a non-optional argument that the value leaves out is written
+                    // by pilota's encoder with its default)
+                    let written_anyway = filled
+                        && !is_union
+                        && fields.iter().any(|f| (f.req != Req::Optional || f.default.is_some()) && !fs.iter().any(|(id, _)| *id == f.id) && ty_reaches(s, &f.ty, &mut vec![], &args));
+                    written_anyway || in_fields(s, &fields, fs, &args, filled)
+                }
                 _ => false,
             }
         }
